@@ -35,14 +35,14 @@ CHECKS = {
             "same generated concurrent histories; invariant monitor evaluated after every simulated network op and at every quiescence",
             "len(pool.connections) <= N and open streams (minus those of connections that already left the pool and carry no request bytes "
             "afterwards) <= N, checked at every op boundary of every generated schedule with limits 1-3 and up to 5 callers.",
-            "asyncio only; schedules sampled.",
+            "harness-scheduled asyncio and trio runs (a third of the histories run on trio); schedules sampled.",
             "3 C04"),
     "C05": ("fault_enumeration",
             "exhaustive fault-position x fault-kind and cancellation-point x style enumeration over base scenarios on a harness-scheduled asyncio run, plus Hypothesis-drawn fault/cancel/schedule combinations; oracle = pool state predicates and a behavioural capacity probe",
             "For 17 connection kinds x 4 contexts x 3 request shapes: one run per fault-eligible network op index and documented fault kind, and "
             "one per suspension point of the victim and cancellation style (asyncio task.cancel, anyio scope); afterwards the pool must count no "
             "request, hold no stuck connection, and serve max_connections simultaneous probe requests without waiting.",
-            "asyncio + anyio only (no trio run); SimNet stands for the backends; known open findings are matched by signature and listed.",
+            "asyncio (task.cancel and anyio scope) and trio (trio.CancelScope; layer 'trio' re-runs the enumeration on the trio runtime) ; SimNet stands for the backends; known open findings are matched by signature and listed.",
             "3 C05"),
     "C06": ("fault_enumeration",
             "same enumerated and generated runs as C05 with a stream ledger oracle (opened / owned / closed) over the simulated network",
